@@ -755,13 +755,19 @@ def _schedule(repo, col):
         fi = repo.func(SV, fname)
         got = {}
         node = fi.node
-        for n in walk_no_nested(fi.node):
-            if isinstance(n, ast.If):
-                t = n.test
-                if isinstance(t, ast.Compare) and isinstance(t.comparators[0], ast.Constant):
-                    for b in n.body:
-                        if isinstance(b, ast.Assign):
-                            got[t.comparators[0].value] = unparse(b.value)
+        # the kernel that vmap receives, specialised to each solver name (whatever the if/elif/else arrangement is)
+        exk = idxm.expander(repo, fi)
+        sp_ = next((p_ for p_ in fi.params if "solver" in p_), None)
+        kc_ = next((n for n in ast.walk(fi.node) if isinstance(n, ast.Call) and isinstance(n.func, ast.Call) and
+                    unparse(n.func.func).split(".")[-1] == "vmap" and n.func.args), None)
+        if kc_ is not None and sp_ is not None:
+            kt_ = exk.term(kc_.func.args[0])
+            for nm_ in sorted(idxm.constants_compared_with(fi.node, sp_), key=str):
+                v_ = idxm.specialise(kt_, sp_, nm_)
+                while v_.op == "phi" and len([a_ for a_ in v_.args if a_.op not in ("undef", "carried")]) == 1:
+                    v_ = next(a_ for a_ in v_.args if a_.op not in ("undef", "carried"))
+                if v_.op in ("free", "name", "global"):
+                    got[nm_] = v_.name
         col.check(got == kernels, R, fi, f"{fname}: kernel per solver name", str(got), f"kernels are {got}, expected {kernels}", node=node)
         _level_io(repo, col, fi)
 
@@ -1307,17 +1313,15 @@ def _refuse(repo, col):
                   node=body[first_reshape])
     for fname in ("_triang_level", "_backsub_level"):
         f2 = repo.func(SV, fname)
-        chain = next((n for n in walk_no_nested(f2.node) if isinstance(n, ast.If)), None)
-        node = chain
-        raises = False
-        while node is not None:
-            if len(node.orelse) == 1 and isinstance(node.orelse[0], ast.If):
-                node = node.orelse[0]
-                continue
-            raises = any(isinstance(x, ast.Raise) for x in node.orelse)
-            break
+        # a raise statement that runs for none of the solver names the function knows (whatever the if/elif/else arrangement is)
+        ex2 = idxm.expander(repo, f2)
+        sp_ = next((p_ for p_ in f2.params if "solver" in p_), None)
+        names_ = idxm.constants_compared_with(f2.node, sp_) if sp_ else set()
+        raises = bool(names_) and any(
+            isinstance(n_, ast.Raise) and all(any(idxm.guard_truth(g, sp_, nm_) is False for g in ex2.stmt_guards.get(id(n_), ())) for nm_ in names_)
+            for n_ in ast.walk(f2.node))
         col.check(raises, R, f2, f"{fname}: unknown tridiagonal solver name raises", "raise NameError",
-                  f"{fname} does not refuse an unknown solver name", node=chain or f2.node)
+                  f"{fname} does not refuse an unknown solver name", node=f2.node)
 
 
 # --------------------------------------------------------------------------------------
